@@ -49,8 +49,8 @@ def plan(tier, seed):
               multi=multi, ci=int(rng.integers(1, 4)) if multi else 1,
               co=int(rng.integers(1, 4)) if multi else 1,
               batch=pick(rng, [[], [], [2], [2, 2]]),
-              dd=pick(rng, ["complex128", "complex128", "float64"]),
-              df=pick(rng, ["complex128", "complex128", "float64"]),
+              dd=pick(rng, ["complex128", "complex128", "float64", "complex64", "float32"]),
+              df=pick(rng, ["complex128", "complex128", "float64", "complex64", "float32"]),
               via=pick(rng, ["func", "func", "linop"]))
     return P.cases
 
@@ -130,7 +130,8 @@ def run_case(case):
     sc = nrm(ref) + 1e-3 * nrm(d0) * nrm(f0) + 1e-300
     e = nrm(got - ref) / sc
     obs = {"rel": e}
-    if not e <= 1e-10:
+    single = case["dd"] in ("complex64", "float32") or case["df"] in ("complex64", "float32")
+    if not e <= (1e-4 if single else 1e-10):
         return violated(sig, "differs from the convolution definition: rel %.3g" % e, wit,
                         mech="value", obs=obs)
     if not (np.array_equal(data, d0) and np.array_equal(filt, f0)):
